@@ -286,6 +286,20 @@ Section FloatFacts.
     destruct x as [s|s| |s m e B]; try discriminate; destruct s; cbn; auto.
   Qed.
 
+  (* the explicit selections the math layer is written with ARE f_min / f_max (a NaN compares false) *)
+  Lemma f_min_select : forall a b : bf, (if f_is_nan a || f_lt b a then b else a) = f_min a b.
+  Proof.
+    intros a b. unfold f_min. destruct (f_is_nan a) eqn:Ha; [reflexivity|]. cbn [orb].
+    destruct (f_is_nan b) eqn:Hb; [|reflexivity].
+    destruct b; try discriminate Hb. reflexivity.
+  Qed.
+  Lemma f_max_select : forall a b : bf, (if f_is_nan a || f_lt a b then b else a) = f_max a b.
+  Proof.
+    intros a b. unfold f_max. destruct (f_is_nan a) eqn:Ha; [reflexivity|]. cbn [orb].
+    destruct (f_is_nan b) eqn:Hb; [|reflexivity].
+    destruct b; try discriminate Hb. destruct a; try discriminate Ha; reflexivity.
+  Qed.
+
   Lemma f_min_spec : forall a b : bf, f_is_nan a = false -> f_is_nan b = false ->
     (f_min a b = a \/ f_min a b = b) /\ f_ordered_le (f_min a b) a /\ f_ordered_le (f_min a b) b.
   Proof.
@@ -510,9 +524,15 @@ Lemma gen_int_defined : forall v t, is_float t = false -> exists M, gen_int_math
 Proof. intros [] [] H; try discriminate; cbn [gen_int_math]; eauto. Qed.
 
 Lemma gen_f32_is_spec : forall v, mathops_ext (gen_f32_math v) float_math.
-Proof. intros []; unfold mathops_ext; repeat split; intros; reflexivity. Qed.
+Proof.
+  intros []; unfold mathops_ext; repeat split; intros;
+    first [reflexivity | apply f_min_select | apply f_max_select].
+Qed.
 Lemma gen_f64_is_spec : forall v, mathops_ext (gen_f64_math v) float_math.
-Proof. intros []; unfold mathops_ext; repeat split; intros; reflexivity. Qed.
+Proof.
+  intros []; unfold mathops_ext; repeat split; intros;
+    first [reflexivity | apply f_min_select | apply f_max_select].
+Qed.
 
 (** * 5. Statements about the generated records *)
 
